@@ -12,6 +12,14 @@
 //! exchange rejects, orders it cannot afford), cancel requests for ids in any state, and
 //! cancel-orders / close-positions commands, with small random pauses so that responses interleave
 //! with new commands; then leaves the system alone (quiescence) and shuts it down.
+//!
+//! `record` builds the system with the two TRADED exchanges (each with its own execution link) and - in
+//! three runs out of four, by seed - a THIRD exchange that is DATA-ONLY: its instruments are indexed, the
+//! market stream carries items and disconnect notices for it, but no execution is added for it.  It sorts
+//! first / in the middle / last in `ExchangeId` order (seed % 4 = 0 / 1 / 2; 3: no third exchange), so the
+//! traded exchanges' `ExchangeIndex` and their slot in the engine's `MultiExchangeTxMap` only agree if the
+//! builder keeps the `None` placeholder.  Its instruments are never traded (that is the documented fatal
+//! path) but cancel-orders / close-positions commands whose filter matches them are sent.
 use barter::{
     EngineEvent,
     engine::{
@@ -76,6 +84,17 @@ use vh::util::*;
 // TWO exchanges, each with its own request channel, ExecutionManager, MockExecution client and MockExchange task.
 const EXCHANGES: [ExchangeId; 2] = [ExchangeId::BinanceSpot, ExchangeId::Kraken];
 
+/// `record` only: the exchange tracked for its market data alone, by `seed % 4`: sorts before both traded
+/// exchanges / between them / after them / (none: the two-exchange system)
+const DATA_ONLY: [(Option<ExchangeId>, &str); 4] = [
+    (Some(ExchangeId::BinanceFuturesUsd), "first"),
+    (Some(ExchangeId::Coinbase), "middle"),
+    (Some(ExchangeId::Okx), "last"),
+    (None, "none"),
+];
+/// (internal name, exchange name, base, price) of the data-only exchange's markets (reference prices)
+const REF_MARKETS: [(&str, &str, &str, i64); 2] = [("ref_btc_usdt", "BTC-USDT", "btc", 95), ("ref_eth_usdt", "ETH-USDT", "eth", 11)];
+
 static CLOSE_IDS: std::sync::atomic::AtomicUsize = std::sync::atomic::AtomicUsize::new(0);
 
 /// One instrument of the system: where it lives and where the builder indexed it.
@@ -102,6 +121,8 @@ fn order_kind(s: &ActiveOrderState) -> &'static str {
 struct Observer {
     id: StrategyId,
     views: Arc<Mutex<Vec<Value>>>,
+    /// every on-disconnect invocation: (number of events fully processed before the one being processed, exchange)
+    calls: Arc<Mutex<Vec<(usize, &'static str)>>>,
 }
 
 impl AlgoStrategy for Observer {
@@ -119,7 +140,8 @@ impl AlgoStrategy for Observer {
                 m.insert(cid.0.to_string(), json!(order_kind(&o.state)));
             }
         }
-        let bal: serde_json::Map<String, Value> = state.assets.0.iter().map(|(k, a)| {
+        // (balances: the traded exchanges' - a data-only exchange has no account and never gets one)
+        let bal: serde_json::Map<String, Value> = state.assets.0.iter().filter(|(k, _)| EXCHANGES.contains(&k.exchange)).map(|(k, a)| {
             (format!("bal_{}_{}", k.exchange.as_str(), k.asset), match &a.balance {
                 None => json!({"has": false, "t": 0, "v": 0}),
                 Some(b) => json!({"has": true, "t": untime_ms(b.time), "v": dec_units(b.value.total, 1000)}),
@@ -156,7 +178,10 @@ impl ClosePositionsStrategy for Observer {
 
 impl<Clock, ExecutionTxs, Risk> OnDisconnectStrategy<Clock, State, ExecutionTxs, Risk> for Observer {
     type OnDisconnect = ();
-    fn on_disconnect(_: &mut Engine<Clock, State, ExecutionTxs, Self, Risk>, _: ExchangeId) -> Self::OnDisconnect {}
+    fn on_disconnect(engine: &mut Engine<Clock, State, ExecutionTxs, Self, Risk>, exchange: ExchangeId) -> Self::OnDisconnect {
+        let seen = engine.strategy.views.lock().len();
+        engine.strategy.calls.lock().push((seen, exchange.as_str()));
+    }
 }
 impl<Clock, ExecutionTxs, Risk> OnTradingDisabled<Clock, State, ExecutionTxs, Risk> for Observer {
     type OnTradingDisabled = ();
@@ -179,6 +204,31 @@ fn instruments() -> IndexedInstruments {
             b.add_instrument(Instrument::spot(EXCHANGES[*x], *name, *name_ex, Underlying::new(*base, "usdt"), None))
         })
         .build()
+}
+
+/// `record`: the traded markets plus the markets of the data-only exchange (if any)
+fn instruments_with(data_only: Option<ExchangeId>) -> IndexedInstruments {
+    let b = MARKETS.iter().fold(IndexedInstruments::builder(), |b, (x, name, name_ex, base, _)| {
+        b.add_instrument(Instrument::spot(EXCHANGES[*x], *name, *name_ex, Underlying::new(*base, "usdt"), None))
+    });
+    match data_only {
+        Some(d) => REF_MARKETS.iter().fold(b, |b, (name, name_ex, base, _)| b.add_instrument(Instrument::spot(d, *name, *name_ex, Underlying::new(*base, "usdt"), None))),
+        None => b,
+    }
+    .build()
+}
+
+fn ref_insts(indexed: &IndexedInstruments, data_only: Option<ExchangeId>) -> Vec<Inst> {
+    let Some(d) = data_only else { return vec![] };
+    REF_MARKETS
+        .iter()
+        .map(|(name, _, _, price)| Inst {
+            ex: d,
+            exi: indexed.find_exchange_index(d).expect("exchange indexed"),
+            idx: indexed.find_instrument_index(d, &InstrumentNameInternal::new(*name)).expect("instrument indexed"),
+            price: *price,
+        })
+        .collect()
 }
 
 fn insts(indexed: &IndexedInstruments) -> Vec<Inst> {
@@ -225,21 +275,32 @@ fn main() {
 
 async fn record(args: Args) {
     if args.cmd != "record" {
-        usage("system record --seed S --rounds N --out f | system lifecycle --scenarios f --seeded N --seed S --out f");
+        usage("system record --seed S --rounds N --out f [--data-only first|middle|last|none] | system lifecycle --scenarios f --seeded N --seed S --out f");
     }
     let mut rng = rng(args.u64("seed", 1));
     let rounds = args.usize("rounds", 60);
     let mut out = Out::create(args.req("out"));
 
-    let instruments = instruments();
+    // the data-only exchange of this run and where it sorts among the traded ones
+    let (data_only, position) = match args.get("data-only") {
+        Some(p) => *DATA_ONLY.iter().find(|(_, name)| *name == p).unwrap_or_else(|| usage("--data-only first|middle|last|none")),
+        None => DATA_ONLY[(args.u64("seed", 1) % 4) as usize],
+    };
+    let instruments = instruments_with(data_only);
     let insts = insts(&instruments);
+    let refs = ref_insts(&instruments, data_only);
+    // every instrument the engine tracks: the traded ones first (indices 0..n_inst), then the data-only exchange's
+    let all: Vec<Inst> = insts.iter().chain(refs.iter()).cloned().collect();
+    let present: Vec<&'static str> = instruments.exchanges().iter().map(|e| e.value.as_str()).collect();
     let (mtx, mrx) = tokio::sync::mpsc::unbounded_channel::<MarketStreamEvent<InstrumentIndex, DataKind>>();
     let market_stream = tokio_stream::wrappers::UnboundedReceiverStream::new(mrx);
     let views = Arc::new(Mutex::new(vec![]));
-    let strategy = Observer { id: StrategyId::new("sys"), views: views.clone() };
+    let calls = Arc::new(Mutex::new(vec![]));
+    let strategy = Observer { id: StrategyId::new("sys"), views: views.clone(), calls: calls.clone() };
     let sys_args = SystemArgs::new(
         &instruments,
         // the second link is a little slower, so answers of the two exchanges overtake one another
+        // (NO execution for the data-only exchange)
         vec![ExecutionConfig::Mock(mock_config(0, args.u64("latency", 2))), ExecutionConfig::Mock(mock_config(1, args.u64("latency", 2) + 1))],
         HistoricalClock::new(time(0)),
         strategy,
@@ -261,8 +322,9 @@ async fn record(args: Args) {
         .unwrap_or_else(|e| usage(&format!("system init: {e:?}")));
     let SnapUpdates { snapshot: audit_snapshot, updates: mut audit_rx } = system.audit.take().expect("audit enabled");
     // ---- freshness trace (spec/Freshness.tla): seeded balances, then every balance the exchange delivers
+    // (the traded exchanges' balances: the assets of a data-only exchange have no balance, seeded or delivered)
     let mut fresh = args.get("fresh-out").map(Out::create);
-    let seeded: Vec<(String, i64, Value)> = audit_snapshot.event.assets.0.iter().map(|(k, a)| {
+    let seeded: Vec<(String, i64, Value)> = audit_snapshot.event.assets.0.iter().filter(|(k, _)| EXCHANGES.contains(&k.exchange)).map(|(k, a)| {
         let b = a.balance.as_ref();
         (format!("bal_{}_{}", k.exchange.as_str(), k.asset), b.map(|b| untime_ms(b.time)).unwrap_or(-1), b.map(|b| dec_units(b.value.total, 1000)).unwrap_or(json!(-1)))
     }).collect();
@@ -273,6 +335,8 @@ async fn record(args: Args) {
         // time(0) reads time(0) plus the few wall-clock milliseconds since its creation
         if let Some((k, t, _)) = seeded.iter().find(|(_, t, _)| !(0..=60_000).contains(t)) {
             f.line(&json!({"a": "Deliver", "ms": [], "anomaly": format!("seeded balance {k} is stamped {t} ms from the engine clock's start (expected within [0, 60000])")}));
+        } else if let Some((k, _)) = audit_snapshot.event.assets.0.iter().find(|(k, a)| !EXCHANGES.contains(&k.exchange) && a.balance.is_some()) {
+            f.line(&json!({"a": "Deliver", "ms": [], "anomaly": format!("the engine starts with a balance for {} of {}, an exchange without an account (no execution link, nothing seeded)", k.asset, k.exchange.as_str())}));
         } else {
             let ms: Vec<Value> = seeded.iter().map(|(k, t, v)| json!({"item": k, "t": t, "v": v})).collect();
             let post: serde_json::Map<String, Value> = seeded.iter().map(|(k, t, v)| (k.clone(), json!({"has": true, "t": t, "v": v}))).collect();
@@ -286,12 +350,20 @@ async fn record(args: Args) {
     let mut used: Vec<(usize, String)> = vec![];
     let mut t = 0i64;
     let n_inst = insts.len();
-    for inst in insts.iter() {
+    let n_all = all.len();
+    // what the driver put into the market stream / the commands it sent that concern the data-only exchange
+    let mut mnotices: std::collections::BTreeMap<&'static str, usize> = Default::default();
+    let mut data_only_items = 0usize;
+    let mut filters_matching_data_only = 0usize;
+    let is_ref = |i: usize| i >= n_inst;
+    for inst in all.iter() {
         t += 1;
         let _ = mtx.send(MarketStreamEvent::Item(MarketEvent { time_exchange: time(t), time_received: time(t), exchange: inst.ex, instrument: inst.idx,
             kind: DataKind::Trade(PublicTrade { id: format!("m{t}"), price: inst.price as f64, amount: 1.0, side: Side::Buy }) }));
     }
+    data_only_items += refs.len();
     // one open request; the caller decides whether it travels alone or in a batch spanning exchanges
+    // (only ever for an instrument of a TRADED exchange)
     let new_open = |rng: &mut rand::rngs::StdRng, next_id: &mut usize, used: &mut Vec<(usize, String)>, inst: usize| {
         *next_id += 1;
         let cid = format!("k{next_id}");
@@ -301,6 +373,31 @@ async fn record(args: Args) {
         OrderRequestOpen {
             key: key(&insts[inst], &cid),
             state: RequestOpen { side: if rng.random_bool(0.6) { Side::Buy } else { Side::Sell }, price: dec(insts[inst].price), quantity: dec(qty), kind, time_in_force: tif },
+        }
+    };
+    // a filter over everything the engine tracks - the data-only exchange and its instruments included
+    // (they hold no orders and no positions: matching them must change nothing and must request nothing)
+    let mut any_filter = |rng: &mut rand::rngs::StdRng, two: bool| -> InstrumentFilter<ExchangeIndex, AssetIndex, InstrumentIndex> {
+        match rng.random_range(0..3) {
+            0 => {
+                if !refs.is_empty() { filters_matching_data_only += 1 }
+                InstrumentFilter::None
+            }
+            1 => {
+                let i = rng.random_range(0..n_all);
+                if is_ref(i) { filters_matching_data_only += 1 }
+                InstrumentFilter::exchanges([all[i].exi])
+            }
+            _ => {
+                let (i, j) = (rng.random_range(0..n_all), rng.random_range(0..n_all));
+                if two {
+                    if is_ref(i) || is_ref(j) { filters_matching_data_only += 1 }
+                    InstrumentFilter::instruments([all[i].idx, all[j].idx])
+                } else {
+                    if is_ref(i) { filters_matching_data_only += 1 }
+                    InstrumentFilter::instruments([all[i].idx])
+                }
+            }
         }
     };
     // a panic inside the system under test is data: a command that cannot be delivered because the engine
@@ -318,6 +415,16 @@ async fn record(args: Args) {
             }
         };
     }
+    // every run starts with one open request per traded exchange, in index order (one command each): whatever
+    // happens later, each execution link has been addressed at least once while every component was still up
+    for x in 0..EXCHANGES.len() {
+        let own: Vec<usize> = (0..n_inst).filter(|i| insts[*i].ex == EXCHANGES[x]).collect();
+        let pick = own[rng.random_range(0..own.len())];
+        let req = new_open(&mut rng, &mut next_id, &mut used, pick);
+        intended.push(format!("{:?}", Cmd::SendOpenRequests(OneOrMany::One(req.clone()))));
+        cmd!(system.send_open_requests(OneOrMany::One(req)));
+        tokio::task::yield_now().await;
+    }
     for _ in 0..rounds {
         match rng.random_range(0..100) {
             0..=34 if next_id < 38 => {
@@ -328,7 +435,7 @@ async fn record(args: Args) {
                 cmd!(system.send_open_requests(OneOrMany::One(req)));
             }
             35..=44 if next_id < 37 => {
-                // ONE command carrying requests for instruments of BOTH exchanges (in either order)
+                // ONE command carrying requests for instruments of BOTH traded exchanges (in either order)
                 mixed_batches += 1;
                 let first = rng.random_range(0..n_inst);
                 let mut batch = vec![new_open(&mut rng, &mut next_id, &mut used, first)];
@@ -357,22 +464,14 @@ async fn record(args: Args) {
                 cmd!(system.send_cancel_requests(req));
             }
             70..=77 => {
-                let filter = match rng.random_range(0..3) {
-                    0 => InstrumentFilter::None,
-                    1 => InstrumentFilter::exchanges([insts[rng.random_range(0..n_inst)].exi]),
-                    _ => InstrumentFilter::instruments([insts[rng.random_range(0..n_inst)].idx, insts[rng.random_range(0..n_inst)].idx]),
-                };
+                let filter = any_filter(&mut rng, true);
                 intended.push(format!("{:?}", Cmd::CancelOrders(filter.clone())));
                 cmd!(system.cancel_orders(filter));
             }
             78 | 79 if closes < 5 => {
                 // close the open positions of one exchange / one instrument / everywhere: market orders z1, z2, ...
                 closes += 1;
-                let filter = match rng.random_range(0..3) {
-                    0 => InstrumentFilter::None,
-                    1 => InstrumentFilter::exchanges([insts[rng.random_range(0..n_inst)].exi]),
-                    _ => InstrumentFilter::instruments([insts[rng.random_range(0..n_inst)].idx]),
-                };
+                let filter = any_filter(&mut rng, false);
                 intended.push(format!("{:?}", Cmd::ClosePositions(filter.clone())));
                 cmd!(system.close_positions(filter));
             }
@@ -383,9 +482,18 @@ async fn record(args: Args) {
             }
             81..=89 => {
                 t += 1;
-                let inst = &insts[rng.random_range(0..n_inst)];
+                let i = rng.random_range(0..n_all);
+                if is_ref(i) { data_only_items += 1 }
+                let inst = &all[i];
                 let _ = mtx.send(MarketStreamEvent::Item(MarketEvent { time_exchange: time(t), time_received: time(t), exchange: inst.ex, instrument: inst.idx,
                     kind: DataKind::Trade(PublicTrade { id: format!("m{t}"), price: inst.price as f64, amount: 1.0, side: Side::Sell }) }));
+            }
+            90..=93 => {
+                // the market-data link of one tracked exchange - traded or data-only - drops: a disconnect notice
+                // in the market stream (items of that exchange follow whenever the 81..=89 arm picks it again)
+                let ex = all[rng.random_range(0..n_all)].ex;
+                *mnotices.entry(ex.as_str()).or_default() += 1;
+                let _ = mtx.send(MarketStreamEvent::Reconnecting(ex));
             }
             _ => {}
         }
@@ -394,9 +502,6 @@ async fn record(args: Args) {
             1 => tokio::task::yield_now().await,
             _ => {}
         }
-    }
-    if let Some(p) = &dead {
-        out.line(&json!({"a": "Anomaly", "anomaly": format!("a command could not be handed to the system: {p} (the engine task had ended although no shutdown was requested)")}));
     }
     // ---- quiescence, then shutdown
     // adaptive: quiescent once the engine has processed nothing new for 1.5 s (longer than the
@@ -411,6 +516,36 @@ async fn record(args: Args) {
         if now == last { stable += 1 } else { stable = 0; last = now }
     }
     let n_before_shutdown = views.lock().len();
+    // ---- the execution managers: each serves its exchange's request channel for as long as the system runs.
+    // One whose task has ended by now ended on its own; its own last words say why (ExecutionManager::run panics
+    // when it is handed a request for a key that is not in its exchange's instrument map).
+    let mut mgr_down: Vec<&'static str> = vec![];
+    let mut mgr_panicked: Vec<&'static str> = vec![];
+    let mut mgr_foreign: Vec<&'static str> = vec![];
+    let mut mgr_words: Vec<String> = vec![];
+    // (an engine task that has ended - stopped on an error, panicked - has closed the request channels: every manager
+    //  RETURNS then, which says nothing about the managers)
+    let engine_ended = system.engine.is_finished();
+    for x in 0..system.handles.execution.managers.len() {
+        if system.handles.execution.managers[x].is_finished() {
+            // (a finished task in its place, so that shutdown still has a handle to await)
+            let ended = std::mem::replace(&mut system.handles.execution.managers[x], tokio::spawn(async {}));
+            let words = match ended.await {
+                Ok(()) => "returned".to_string(),
+                Err(e) if e.is_panic() => {
+                    mgr_panicked.push(EXCHANGES[x].as_str());
+                    let p = e.into_panic();
+                    p.downcast_ref::<String>().cloned().or_else(|| p.downcast_ref::<&str>().map(|s| s.to_string())).unwrap_or_else(|| "panic".into())
+                }
+                Err(e) => e.to_string(),
+            };
+            mgr_down.push(EXCHANGES[x].as_str());
+            if words.contains("non-configured key") {
+                mgr_foreign.push(EXCHANGES[x].as_str());
+            }
+            mgr_words.push(format!("{}: {}", EXCHANGES[x].as_str(), words.chars().take(300).collect::<String>()));
+        }
+    }
     // ---- the execution link of the exchange goes down: kill the (mock) exchange task and wait for the
     // engine to process the account-stream disconnect notice
     let drop_link = args.u64("drop-link", 1) == 1;
@@ -437,7 +572,12 @@ async fn record(args: Args) {
         }
     }
     // a panic inside the system under test is data (e.g. the engine task died, so `shutdown` cannot
-    // reach it any more): catch it and report it as an anomaly line
+    // reach it any more): catch it and report it as an anomaly line.  Anomalies found here are reported at
+    // the END of the run's trace: what the engine did before is validated first.
+    let mut tail: Vec<String> = vec![];
+    if let Some(p) = &dead {
+        tail.push(format!("a command could not be handed to the system: {p} (the engine task had ended although no shutdown was requested)"));
+    }
     let shutdown = {
         use futures::FutureExt;
         let prev = std::panic::take_hook();
@@ -449,27 +589,41 @@ async fn record(args: Args) {
             Ok(Ok(inner)) => Ok(inner.map(|_| ())),
             Ok(Err(p)) => {
                 let msg = p.downcast_ref::<String>().cloned().or_else(|| p.downcast_ref::<&str>().map(|s| s.to_string())).unwrap_or_else(|| "panic".into());
-                out.line(&json!({"a": "Anomaly", "anomaly": format!("system.shutdown() panicked: {msg} (the engine task had already died)")}));
+                tail.push(format!("system.shutdown() panicked: {msg} (the engine task had already died)"));
                 Ok(Ok(()))
             }
         }
     };
     match shutdown {
-        Err(_) => out.line(&json!({"a": "Anomaly", "anomaly": "system.shutdown() did not return within 20 s"})),
+        Err(_) => tail.push("system.shutdown() did not return within 20 s".into()),
         // the task this driver aborted itself reports as cancelled: not a defect
         Ok(Err(e)) if drop_link && e.is_cancelled() => {}
-        Ok(Err(e)) => out.line(&json!({"a": "Anomaly", "anomaly": format!("system.shutdown() failed: {e} (a task panicked)")})),
+        Ok(Err(e)) => tail.push(format!("system.shutdown() failed: {e} (a task panicked)")),
         Ok(Ok(())) => {}
     }
 
     // ---- the audit stream -> trace lines
     let ex_name = |i: ExchangeIndex| instruments.find_exchange(i).map(|e| e.as_str()).unwrap_or("?");
     let views = views.lock().clone();
+    let calls: Vec<(usize, &'static str)> = calls.lock().clone();
+    let mut records = vec![];
+    while let Ok(tick) = audit_rx.rx.try_recv() {
+        records.push(tick);
+    }
+    // an engine that reports an unrecoverable error stops: no strategy call follows that record, nothing after it is
+    // processed, and what is outstanding then is no statement about the execution managers (no Quiescent line)
+    let stops = records.iter().any(|tick| matches!(&tick.event, EngineAudit::Process(p) if !p.errors.is_empty()));
+    // (once the engine has ended only a manager that panicked says something about the run; while the engine runs, a
+    //  manager that ended in any way does)
+    let managers_line = |a: &str| json!({"a": a, "down": if a == "Managers" || engine_ended { &mgr_panicked } else { &mgr_down }, "foreign": mgr_foreign, "words": mgr_words});
     let mut vi = 0usize;
     let mut ticks = 0usize;
     let mut link_notices = 0usize;
+    let mut market_notices_seen = 0usize;
+    let mut stop_explained = false;
+    let mut stopped = false;
     let mut processed_cmds: Vec<String> = vec![];
-    while let Ok(tick) = audit_rx.rx.try_recv() {
+    for tick in records.iter() {
         let EngineAudit::Process(p) = &tick.event else { continue };
         ticks += 1;
         match &p.event {
@@ -478,22 +632,58 @@ async fn record(args: Args) {
             _ => {}
         }
         let mut lines: Vec<Value> = vec![];
+        // the requests the engine reports as handed to a link (sent) and those it could not hand over (errors)
+        // (why: the engine found no link for the exchange / the link's channel is closed: its manager has gone)
+        let why = |e: &barter::engine::error::EngineError| match e {
+            barter::engine::error::EngineError::Unrecoverable(barter::engine::error::UnrecoverableEngineError::IndexError(_)) => "no_link",
+            barter::engine::error::EngineError::Unrecoverable(barter::engine::error::UnrecoverableEngineError::ExecutionChannelTerminated(_)) => "terminated",
+            barter::engine::error::EngineError::Recoverable(_) => "unhealthy",
+            _ => "other",
+        };
+        let mut failed_any = false;
         for o in p.outputs.iter() {
             if let EngineOutput::Commanded(a) = o {
+                let mut open = |s: &barter::engine::action::send_requests::SendRequestsOutput<RequestOpen>, lines: &mut Vec<Value>| {
+                    s.sent.iter().for_each(|r| lines.push(json!({"a": "SendOpen", "c": r.key.cid.0.as_str(), "x": ex_name(r.key.exchange)})));
+                    s.errors.iter().for_each(|(r, e)| {
+                        failed_any = true;
+                        lines.push(json!({"a": "SendFail", "c": r.key.cid.0.as_str(), "x": ex_name(r.key.exchange), "k": "open", "why": why(e), "foreign": mgr_foreign,
+                                          "err": format!("{e:?}").chars().take(160).collect::<String>()}))
+                    });
+                };
                 match a {
-                    ActionOutput::OpenOrders(s) => s.sent.iter().for_each(|r| lines.push(json!({"a": "SendOpen", "c": r.key.cid.0.as_str(), "x": ex_name(r.key.exchange)}))),
-                    ActionOutput::CancelOrders(s) => s.sent.iter().for_each(|r| lines.push(json!({"a": "SendCancel", "c": r.key.cid.0.as_str()}))),
-                    ActionOutput::ClosePositions(s) => {
-                        s.cancels.sent.iter().for_each(|r| lines.push(json!({"a": "SendCancel", "c": r.key.cid.0.as_str()})));
-                        s.opens.sent.iter().for_each(|r| lines.push(json!({"a": "SendOpen", "c": r.key.cid.0.as_str(), "x": ex_name(r.key.exchange)})));
-                    }
-                    ActionOutput::GenerateAlgoOrders(_) => {}
+                    ActionOutput::OpenOrders(s) => open(s, &mut lines),
+                    ActionOutput::ClosePositions(s) => open(&s.opens, &mut lines),
+                    _ => {}
+                }
+                let mut cancel = |s: &barter::engine::action::send_requests::SendRequestsOutput<RequestCancel>, lines: &mut Vec<Value>| {
+                    s.sent.iter().for_each(|r| lines.push(json!({"a": "SendCancel", "c": r.key.cid.0.as_str()})));
+                    s.errors.iter().for_each(|(r, e)| {
+                        failed_any = true;
+                        lines.push(json!({"a": "SendFail", "c": r.key.cid.0.as_str(), "x": ex_name(r.key.exchange), "k": "cancel", "why": why(e), "foreign": mgr_foreign,
+                                          "err": format!("{e:?}").chars().take(160).collect::<String>()}))
+                    });
+                };
+                match a {
+                    ActionOutput::CancelOrders(s) => cancel(s, &mut lines),
+                    ActionOutput::ClosePositions(s) => cancel(&s.cancels, &mut lines),
+                    _ => {}
                 }
             }
         }
-        if let EngineEvent::Account(AccountStreamEvent::Reconnecting(ex)) = &p.event {
-            lines.push(json!({"a": "LinkDown", "x": ex.as_str()}));
-            link_notices += 1;
+        // the on-disconnect invocations the strategy saw while the engine processed this event
+        let called: Vec<&'static str> = calls.iter().filter(|(at, _)| *at == vi).map(|(_, x)| *x).collect();
+        match &p.event {
+            EngineEvent::Account(AccountStreamEvent::Reconnecting(ex)) => {
+                lines.push(json!({"a": "LinkDown", "x": ex.as_str(), "calls": called}));
+                link_notices += 1;
+            }
+            EngineEvent::Market(MarketStreamEvent::Reconnecting(ex)) => {
+                lines.push(json!({"a": "MktDown", "x": ex.as_str(), "calls": called}));
+                market_notices_seen += 1;
+            }
+            EngineEvent::Market(MarketStreamEvent::Item(ev)) => lines.push(json!({"a": "MktItem", "x": ev.exchange.as_str()})),
+            _ => {}
         }
         if let (Some(f), EngineEvent::Account(AccountStreamEvent::Item(ev))) = (fresh.as_mut(), &p.event) {
             let msg = |b: &AssetBalance<AssetIndex>| {
@@ -531,7 +721,19 @@ async fn record(args: Args) {
         }
         // the engine view after this event (the observer is called once per processed event while trading is enabled)
         let is_shutdown = matches!(&p.event, EngineEvent::Shutdown(_));
-        if !is_shutdown {
+        if !p.errors.is_empty() {
+            // the engine stops here.  If it stops because it could not hand over a request (the SendFail lines above: no link
+            // found for a traded exchange / the link's manager gone / a request for the data-only exchange), those lines and
+            // the state of the managers are what the specification judges, and everything after the stop is its consequence;
+            // a stop for any other reason is an anomaly.
+            stopped = true;
+            stop_explained = failed_any;
+            lines.push(managers_line("Managers"));
+            if !failed_any {
+                lines.push(json!({"a": "Anomaly", "anomaly": format!("the engine stopped on an unrecoverable error while processing {}: {}",
+                    format!("{:?}", p.event).chars().take(200).collect::<String>(), format!("{:?}", p.errors).chars().take(300).collect::<String>())}));
+            }
+        } else if !is_shutdown {
             if let Some(v) = views.get(vi) {
                 let conn: serde_json::Map<String, Value> = v["conn"].as_object().map(|m| m.iter().map(|(k, c)| (k.clone(), c["account"].clone())).collect()).unwrap_or_default();
                 let market: serde_json::Map<String, Value> = v["conn"].as_object().map(|m| m.iter().map(|(k, c)| (k.clone(), c["market"].clone())).collect()).unwrap_or_default();
@@ -540,28 +742,44 @@ async fn record(args: Args) {
                 lines.push(json!({"a": "Anomaly", "anomaly": "an audit record without a matching strategy call (trading enabled)"}));
             }
             vi += 1;
-            if vi == n_before_shutdown {
-                lines.push(json!({"a": "Quiescent"}));
+            if vi == n_before_shutdown && !stops {
+                lines.push(managers_line("Quiescent"));
             }
         }
         for l in lines {
             out.line(&l);
         }
+        if stopped {
+            break;
+        }
+    }
+    // what was found after the drive (reported here, after everything the engine did) - unless it is the consequence
+    // of a stop whose cause the trace already shows
+    if !stop_explained {
+        for d in tail {
+            out.line(&json!({"a": "Anomaly", "anomaly": d}));
+        }
     }
     // the System API is a thin sender: the engine must have processed exactly the commands handed to it, in order
-    if dead.is_none() && processed_cmds != intended {
+    if dead.is_none() && !stopped && processed_cmds != intended {
         let at = processed_cmds.iter().zip(intended.iter()).position(|(a, b)| a != b).unwrap_or(processed_cmds.len().min(intended.len()));
         out.line(&json!({"a": "Anomaly", "tag": "command_fidelity", "anomaly": format!("commands handed to the System API and commands the engine processed differ at #{at} ({} handed, {} processed): handed {:?}, processed {:?}",
             intended.len(), processed_cmds.len(), intended.get(at), processed_cmds.get(at))}));
     }
-    if drop_link {
-        // exactly one disconnect notice must have reached the engine for the killed link
-        out.line(&json!({"a": "LinkDownCount", "killed": killed, "n": link_notices}));
+    if drop_link && !stopped {
+        // exactly one disconnect notice must have reached the engine for the killed link; every market notice put into
+        // the market stream must have been processed
+        out.line(&json!({"a": "LinkDownCount", "killed": killed, "n": link_notices, "mnotices": mnotices}));
     }
     let n = out.finish();
     let nf = fresh.map(|f| f.finish()).unwrap_or(0);
     println!("{}", json!({"lines": n, "fresh_lines": nf, "audit_records": ticks, "strategy_views": views.len(), "opens": next_id, "link_notices": link_notices,
-                            "commands_spanning_both_exchanges": mixed_batches, "commands": intended.len(), "close_positions_commands": closes, "links_killed": killed.len()}));
+                            "commands_spanning_both_exchanges": mixed_batches, "commands": intended.len(), "close_positions_commands": closes, "links_killed": killed.len(),
+                            "exchanges": present, "data_only": data_only.map(|d| d.as_str()).unwrap_or("none"), "data_only_position": position,
+                            "market_notices": mnotices.values().sum::<usize>(), "market_notices_processed": market_notices_seen,
+                            "market_notices_data_only": data_only.and_then(|d| mnotices.get(d.as_str()).copied()).unwrap_or(0),
+                            "market_items_data_only": data_only_items, "filter_commands_matching_data_only": filters_matching_data_only,
+                            "on_disconnect_calls": calls.len(), "engine_stopped": stopped}));
 }
 
 // =====================================================================================================
